@@ -1228,3 +1228,147 @@ pub fn brief(s: &MState) -> String {
         s.once
     )
 }
+
+// ------------------------------------------------------------------------------------------------
+// Outcome enumeration for tiny programs (oracle E of DESIGN.md): all outcomes that some
+// interleaving of the model's micro-operations allows. This computes the *oracle* for C02; the
+// runtime side is explored by seeded / scripted schedules.
+// ------------------------------------------------------------------------------------------------
+
+#[derive(Clone, Debug, PartialEq, Eq, PartialOrd, Ord, Hash)]
+pub struct Outcome {
+    /// per body: results of its completed operations, in order ("*" where the model predicts nothing)
+    pub results: Vec<Vec<String>>,
+    /// None = every task finished; Some(set) = deadlock with these bodies unfinished
+    pub deadlock: Option<Vec<usize>>,
+}
+
+/// normalise a result for outcome comparison (values the model does not predict become "*")
+pub fn norm_result(op: &Op, val: &str) -> String {
+    match op {
+        Op::Spawn(_) | Op::ScopedSpawn(_) | Op::TlsWith(_) | Op::Rand(_) => "*".into(),
+        // which member of a released group is the leader is an implementation choice
+        Op::BarrierWait(_) => "ret".into(),
+        Op::ThreadInfo => "*".into(),
+        _ => val.to_string(),
+    }
+}
+
+fn micro_enum(s: &MState, t: usize, op: &Op, j: u8, uv: u64) -> Option<Vec<Out>> {
+    if matches!(op, Op::CallOnce(..) | Op::StaticOnce(_) | Op::LazyGet(_)) && j == 2 {
+        let o = once_slot(s, op);
+        if s.once[o].phase == 1 && s.once[o].lock == Some(t) {
+            let mut n = s.clone();
+            n.once[o].phase = 2;
+            return Some(vec![Out::Cont(n)]);
+        }
+    }
+    micro(s, t, op, j, uv)
+}
+
+/// `spurious`: allow parked tasks to wake spuriously (the *allowed* outcome set); without it the
+/// result is the set of outcomes that need no spurious wake-up (the *required* set).
+pub fn enumerate_outcomes(p: &Program, cap: usize, spurious_ok: bool) -> Option<BTreeSet<Outcome>> {
+    type Node = (MState, Vec<Vec<String>>);
+    let nb = p.bodies.len();
+    let labels: Vec<Vec<String>> = (0..nb).map(|b| p.labels(b)).collect();
+    let mut seen: BTreeSet<Node> = BTreeSet::new();
+    let mut stack: Vec<Node> = vec![(init_state(p), vec![vec![]; nb])];
+    let mut outcomes = BTreeSet::new();
+    while let Some((s, res)) = stack.pop() {
+        if !seen.insert((s.clone(), res.clone())) {
+            continue;
+        }
+        if seen.len() > cap {
+            return None;
+        }
+        let mut succ: Vec<Node> = vec![];
+        let mut real_moves = 0usize; // successors that do not rely on a spurious wake-up
+        for t in 0..nb {
+            let before = succ.len();
+            let mut spurious = false;
+            match &s.tasks[t].st {
+                TSt::NotSpawned | TSt::Done => {}
+                TSt::Exiting => {
+                    let mut n = s.clone();
+                    n.tasks[t].st = TSt::Done;
+                    succ.push((n, res.clone()));
+                }
+                TSt::Idle => {
+                    let mut n = s.clone();
+                    if s.tasks[t].pc < labels[t].len() {
+                        n.tasks[t].st = TSt::Pending { micro: 0, tries: 0 };
+                        n.tasks[t].label = labels[t][s.tasks[t].pc].clone();
+                    } else {
+                        // implicit release of guards still held, then exit
+                        for m in 0..n.mutex.len() {
+                            if n.mutex[m].owner == Some(t) {
+                                n.mutex[m].owner = None;
+                            }
+                        }
+                        for r in 0..n.rw.len() {
+                            n.rw[r].readers.remove(&t);
+                            if n.rw[r].writer == Some(t) {
+                                n.rw[r].writer = None;
+                            }
+                        }
+                        n.tasks[t].st = TSt::Exiting;
+                    }
+                    succ.push((n, res.clone()));
+                }
+                TSt::Pending { micro: j, .. } => {
+                    let (op, uv) = match op_for_label(p, t, &s.tasks[t].label) {
+                        Some(x) => x,
+                        None => continue,
+                    };
+                    if matches!(op, Op::Fail) {
+                        continue;
+                    }
+                    // a parked task may always wake spuriously
+                    let s2 = if spurious_ok && matches!(op, Op::Park) && *j == 1 && !s.tasks[t].woken {
+                        let mut w = s.clone();
+                        w.tasks[t].woken = true;
+                        spurious = true;
+                        w
+                    } else {
+                        s.clone()
+                    };
+                    if let Some(outs) = micro_enum(&s2, t, &op, *j, uv) {
+                        for o in outs {
+                            match o {
+                                Out::Cont(mut n) => {
+                                    n.tasks[t].st = TSt::Pending { micro: *j + 1, tries: 0 };
+                                    succ.push((n, res.clone()));
+                                }
+                                Out::Done(mut n, r) => {
+                                    n.tasks[t].st = TSt::Idle;
+                                    n.tasks[t].pc = s.tasks[t].pc + 1;
+                                    n.tasks[t].label.clear();
+                                    let mut res2 = res.clone();
+                                    let val = match &r {
+                                        Res::Exact(v) => norm_result(&op, v),
+                                        _ => "*".into(),
+                                    };
+                                    res2[t].push(val);
+                                    succ.push((n, res2));
+                                }
+                            }
+                        }
+                    }
+                }
+            }
+            if !spurious {
+                real_moves += succ.len() - before;
+            }
+        }
+        if real_moves == 0 {
+            let unfinished: Vec<usize> = (0..nb).filter(|t| !matches!(s.tasks[*t].st, TSt::Done | TSt::NotSpawned)).collect();
+            outcomes.insert(Outcome { results: res.clone(), deadlock: if unfinished.is_empty() { None } else { Some(unfinished) } });
+            // spurious wake-ups are permitted, never required: when nothing else can run the
+            // runtime reports the deadlock and does not offer them
+            continue;
+        }
+        stack.extend(succ);
+    }
+    Some(outcomes)
+}
